@@ -625,6 +625,9 @@ fn schedule_json(sc: &Scenario, choices: &[u8]) -> J {
 }
 
 fn explore_scenario(ctx: &vh::explore::Ctx, sc: &Scenario, bound: Option<usize>, cap: u64) -> Stats {
+    if std::env::var("VERIF_LOUD").is_ok() {
+        eprintln!("scenario {} starts", sc.name);
+    }
     let mut stats = Stats::default();
     let model = Model::build(&sc.config, true).unwrap_or_else(|e| machinery(&format!("{e:?}")));
     // candidate sequential executions
@@ -639,6 +642,9 @@ fn explore_scenario(ctx: &vh::explore::Ctx, sc: &Scenario, bound: Option<usize>,
         cands.full.insert((o.per_thread, o.fin));
     }
     stats.add("sequential_candidates", cands.full.len() as u64);
+    if std::env::var("VERIF_LOUD").is_ok() {
+        eprintln!("scenario {}: {} sequential candidates", sc.name, cands.full.len());
+    }
 
     let mut outcomes: BTreeSet<String> = BTreeSet::new();
     let mut non_linearizable = 0u64;
